@@ -15,6 +15,7 @@ let parse_call (tok : string) : call =
   | ["D"; d] -> CData (bytes_of_hex d)
   | ["O"] -> COpen | ["A"] -> CAwait | ["T"] -> CTimeout | ["R"] -> CRead | ["X"] -> CClose
   | ["B0"] -> CDisableBuf | ["B1"] -> CEnableBuf | ["FAIL"] -> CFail
+  | ["FAIL"; _] -> CFail   (* failure k bytes into the next burst: the model fails the whole burst; the wire is not compared *)
   | ["F"; "sa"; o; ok] -> CFeed (InSynAck (nat_of_int (int_of_string o), ok = "1"))
   | ["F"; "psh"; o] -> CFeed (InPush (nat_of_int (int_of_string o)))
   | ["F"; "fin"; o] -> CFeed (InFin (nat_of_int (int_of_string o)))
